@@ -126,6 +126,7 @@ structure Ctx where
   recvMsgs : Nat := 0
   tick : Nat := 0                   -- tick period (0: none)
   tickPolled : Bool := false
+  tickGen : Nat := 0           -- every `m_ctx_set_tick` makes a new timer source: entries of the old one go stale
   deriving DecidableEq, Repr, Inhabited
 
 inductive Cb | start | stop | eval | evt (h : Nat)
